@@ -322,3 +322,9 @@ Definition chk_ou_start_rows (tol c0 : Q) (sigma e q : list Q) (obs : list (list
 Definition chk_wiener_start_rows (tol c0 : Q) (sigma s : list Q) (obs : list (list Q)) : bool :=
   list_eqb (row_match (qc_close (Q2Qc tol)) 0)
            (srows [Q2Qc c0] (repeat 1 (length s)) (map2 Qcmult (qcl s) (qcl sigma))) (map qcl obs).
+
+(* IntegratedWienerProcess with a prior on x0: the start columns are the prior's standard deviations *)
+Definition chk_iwp_cols_start (tol c0 c1 : Q) (sigma s dt r : list Q) (obs : list (list (Q * Q))) : bool :=
+  list_eqb (row_match (pair_cmp (qc_close (Q2Qc tol))) (0, 0))
+           (iwp_cols [(Q2Qc c0, 0); (0, Q2Qc c1)] (map iwp_drift (qcl dt)) (iwp_amps (qcl sigma) (qcl s) (qcl dt) (qcl r)))
+           (map qcpl obs).
